@@ -747,6 +747,11 @@ func (e *env) apply(p *txPair, op Op) {
 				e.rec.Count("prune-not-oldest-prefix", 1)
 			}
 		}
+		if len(hs) > 0 {
+			// PruneBlocks removes index rows through an internal Cursor.Delete, which
+			// notifies (ForceReseek) every open cursor of the transaction
+			p.markMutation([]string{"\x00ffldb-internal-block-index"}, nil)
+		}
 		for _, h := range hs {
 			if p.pruned == nil {
 				p.pruned = map[kvmodel.Hash]bool{}
